@@ -112,7 +112,7 @@ def cl_rows():
         Row("box-ubcheck", r"^cranelift::", r"^(MisalignedPointerDereference\(4,\(\(\(Box<T>::new_uninit|NullPointerDereference\(\))", "A",
             "debug-only UB checks on a freshly allocated Box (vec! expansion)"),
         Row("cl-api", r"^cranelift::", r"^unwrap:.*(declare_function|define_function|finalize_definitions|Configurable>::(set|enable)|IsaBuilder<T>::finish|current_block|TryInto<U>>::try_into\(Iterator::collect)", "A",
-            "Cranelift API contract: fixed flag names, a declared-once function, a well-formed function body (block structure checked by R12.d), "
+            "Cranelift API contract: fixed flag names, a declared-once function, a well-formed function body (block structure checked by R12.d, sealing by R12.s), "
             "an 11-element collection converted to [Variable; 11]"),
         Row("cl-host", r"^cranelift::CraneliftCompiler::new::\{closure#0\}$", r"^panic!panic@$", "A", "unsupported host ISA: environment, not input"),
         Row("cl-params", r"^cranelift::", r"^BoundsCheck\(PtrMetadata\(FunctionBuilder::(block_params|inst_results)", "A",
@@ -447,6 +447,17 @@ def run(rep, tier):
                 if any(p["err"] == "panic" for p in ps):
                     bad.append("a path of the arm panics for registers (%d, %d)" % (d_, s_))
             rep.ob(rn_, "opc=%#04x" % v, not bad, "Cranelift translation of opcode %#04x" % v, expected="no panicking path", found=bad[:2] or "none")
+
+    # R12.s: the assumption row `cl-api` (define_function accepts the body) rests on the frontend's SSA protocol: a block
+    # is sealed only when all its predecessors are known.  The translator meets it in the simplest way - nothing is
+    # sealed until every instruction is translated, then seal_all_blocks - and that is what is checked
+    rs_ = rep.rule("R12.s", "Cranelift: blocks are sealed once, by seal_all_blocks after translation; no block is sealed while predecessors may still be added", floor=1)
+    early = sorted({p for p in reachc if Fc.fns[p].get("thir") for n in walk(Fc.fns[p]["thir"]["body"])
+                    if n.get("k") == "call" and (callee_path(n) or "").endswith("FunctionBuilder::seal_block")})
+    final = sorted({p for p in reachc if Fc.fns[p].get("thir") for n in walk(Fc.fns[p]["thir"]["body"])
+                    if n.get("k") == "call" and (callee_path(n) or "").endswith("FunctionBuilder::seal_all_blocks")})
+    rep.ob(rs_, "sealing", not early and len(final) == 1, "calls that seal blocks in the Cranelift compiler",
+           expected="one seal_all_blocks, no seal_block", found={"seal_block in": early, "seal_all_blocks in": final})
 
     rd = rep.rule("R12.d", "terminator-emitting opcodes have their follow-up block prepared by the CFG pass", floor=40)
     tr, cfg = cc.roles.cranelift_translate(), cc.roles.cranelift_cfg()
